@@ -34,6 +34,7 @@ EXPECTED_STAGES = {
     "validation": ["query", "parsing", "validation"],
     "variables": ["query", "parsing", "validation"],
     "operation-name": ["query", "parsing", "validation"],
+    "subscription-as-request": ["query", "parsing", "validation"],
     "executed": ["query", "parsing", "validation", "execution"],
     "executed-empty": ["query", "parsing", "validation", "execution"],
 }
@@ -66,6 +67,14 @@ def make_requests(rng, case):
         "query NothingSelected($t: Boolean! = true) { __typename @skip(if: $t) ... @include(if: false) { __typename } }",
         "query NothingSelected { ...F @include(if: false) } fragment F on %s { __typename }" % case.ir.query,
     ]), empty, {}, doc))
+    if case.ir.subscription:
+        # a subscription document sent to the request/response entry points: answered with an error, and whatever
+        # stage was started on the way has to be ended
+        g2 = opgen.OpGen(rng, case.ir, max_depth=2)
+        g2.doc = opgen.ODoc()
+        sop = g2.operation(kind="subscription", name="SubscriptionSentAsRequest")
+        out.append(("subscription-as-request", opgen.document_text(g2.doc), sop,
+                    opgen.variable_values(rng, case.sg, sop, nested=g2.doc.nested_vars), g2.doc))
     fake = opgen.OOperation(op.kind, "NoSuchOperation", op.selection, op.variables)
     out.append(("operation-name", text, fake, variables, doc))
     return out
@@ -126,6 +135,12 @@ def run(ctx):
                 run_ids = [0]
                 falsy = n_instr == 1 and not partials and nest is None and rng.random() < 0.3
                 base["falsy_instrumentation_object"] = falsy
+                # a third of the requests use recorders whose hooks live on the *instance* (bound in __init__, handed
+                # to a factory as plain callbacks, patched in): they are hooks of that instrumentation all the same
+                hooks_on_instances = rng.random() < 0.33
+                base["hooks_bound_on_instances"] = hooks_on_instances
+                if hooks_on_instances:
+                    ctx.count("requests_with_hooks_bound_on_instances")
                 for config in configs:
                     def extra():
                         instr_mon.FALSY_SINGLE[0] = falsy
@@ -138,6 +153,7 @@ def run(ctx):
                             mws = [instr_mon.EqualMiddleware(log, i, rid) for i in range(n_mw)]
                         else:
                             mws = [instr_mon.make_middleware(log, i) for i in range(n_mw)]
+                        instr_mon.HOOKS_ON_INSTANCES[0] = hooks_on_instances
                         return {"instrumentation": instr_mon.make_instrumentations(log, n_instr, [p for p in partials if p[2] >= 0], nest),
                                 "middlewares": mws}
 
